@@ -22,12 +22,13 @@ def parenDepth (ts : List Token) : Nat :=
 def blockHeads (ts : List Token) : Nat :=
   ts.countP fun t => t == .command .defCal || t == .command .defCircuit
 
-/-- inputs at or above this nesting measure that abort the process are the known finding
-`C01/deep-nesting` (the smallest overflowing depth measured on the release harness, 8 MiB stack, is
-above twice this value for every shape, see docs/C01.md) -/
-def deepThreshold : Nat := 1500
+/-- Known finding `C01/deep-nesting`: an abort (stack overflow) on an input whose nesting is at least
+these thresholds — half of the smallest aborting depth measured on the release harness with the default
+8 MiB main-thread stack (12.4k parentheses, 8.4k for `1+(`, 3.6k nested DEFCAL blocks; docs/C01.md). -/
+def parenThreshold : Nat := 4000
+def blockThreshold : Nat := 1800
 
-def nesting (ts : List Token) : Nat := max (parenDepth ts) (blockHeads ts)
+def isDeep (ts : List Token) : Bool := parenDepth ts ≥ parenThreshold || blockHeads ts ≥ blockThreshold
 
 def lenTag (n : Nat) : String :=
   if n ≤ 8 then s!"len{n}" else if n ≤ 16 then "len9-16" else if n ≤ 64 then "len17-64" else "len65+"
@@ -48,8 +49,11 @@ def isAbort (out : Sexp) : Bool :=
   | .list (.atom "abort" :: _) => true
   | _ => false
 
+/-- the known finding `C01/deep-nesting`, with a narrow classifier over (input, implementation output):
+the process aborted AND the input nests at least `parenThreshold` parentheses or `blockThreshold`
+DEFCAL/DEFCIRCUIT blocks -/
 def kfTags (ts : List Token) (out : Sexp) : List String :=
-  if isAbort out && nesting ts ≥ deepThreshold then ["kf:C01/deep-nesting"] else []
+  if isAbort out && isDeep ts then ["kf:C01/deep-nesting"] else []
 
 def handleToks (stream : String) (ts : List Token) (out : Sexp) : CaseResult :=
   let d := budget ts
@@ -70,7 +74,26 @@ def handleToks (stream : String) (ts : List Token) (out : Sexp) : CaseResult :=
       classTag "F" mf, classTag "X" mx] ++ variantTags mi ++ kfTags ts out,
     detail := if agree then "" else s!"model={mOut} impl={out}" }
 
+/-- the same two measures on the characters of a text (an upper bound of the token-level ones up to
+parentheses inside strings and comments; used only to classify an abort without lexing 10^5 characters
+with the quadratic lexer model) -/
+def textParenDepth (cs : List Char) : Nat :=
+  (cs.foldl (fun (acc : Nat × Nat) c =>
+    if c == '(' then (acc.1 + 1, max acc.2 (acc.1 + 1))
+    else if c == ')' then (acc.1 - 1, acc.2)
+    else acc) (0, 0)).2
+
+def textBlockHeads (text : String) : Nat :=
+  (text.splitOn "DEFCAL").length - 1 + ((text.splitOn "DEFCIRCUIT").length - 1)
+
 def handleText (stream : String) (text : String) (out : Sexp) : CaseResult :=
+  -- the known finding: the implementation aborted on a deeply nested input.  The model (which has no
+  -- stack limit) is not run on it: the driver's own native stack is finite too.
+  if isAbort out && (textParenDepth text.toList ≥ parenThreshold || textBlockHeads text ≥ blockThreshold) then
+    { agree := false, specOk := false, nontrivial := true,
+      tags := ["text", "s-" ++ stream, "len65+", "deep-abort", "kf:C01/deep-nesting"],
+      detail := s!"abort on nesting: parentheses {textParenDepth text.toList}, block heads {textBlockHeads text}; impl={out}" }
+  else
   let lexed := QV.Lex.lex text.toList
   let ts := lexed.getD []
   let enc {α : Type} (f : α → Sexp) (o : Outcome α) : Sexp :=
